@@ -1,11 +1,13 @@
 import PyrollProofs.LifecycleLemmas
+import PyrollModel.HookSource
 
 /-!
 # C02 — hook value life-cycle: explicit value, then remembered value, then computation
 
 Model: `PyrollModel/Lifecycle.lean` (tied to `pyroll/core/hooks.py` — `Hook.__get__/__set__/__delete__/get_result`,
 `HookHost.reevaluate_cache / has_* / evaluate_and_set_hooks / root_hook_fallback` — and to `Unit.Profile.__init__` in
-`pyroll/core/unit/unit.py` by the correspondence harness `driver/props/c02.py`, which compares result, invocation trace
+`pyroll/core/unit/unit.py` by the source-level tie of section 0 (T; `hooks.py` only) and by the correspondence harness
+`driver/props/c02.py` (K), which compares result, invocation trace
 and the ordered `__dict__`/`__cache__` of every instance after every operation).  Helper lemmas:
 `PyrollProofs/LifecycleLemmas.lean`.  Only property theorems and their non-vacuity examples live here.
 
@@ -14,7 +16,73 @@ history theorems — every operation list; `step fuel st op` first empties the i
 the list of implementations / explicit callables invoked by that one operation.
 -/
 
+-- every unfolding of `step` names the lemmas about the generated source tables, whether the goal has that case or not
+set_option linter.unusedSimpArgs false
+
 namespace Life
+
+/-! ## 0. the tie of the hand-written model to the source (T)
+
+`pyroll/core/hooks.py` is re-read on every run of `./check C02` (`driver/translate/hooks_skeleton.py` →
+`PyrollModel/Gen/C02Hooks.lean`).
+
+* `hooks_source_consumed` - `hasSet` / `hasCached` (which dictionary `has_set` / `has_cached` look into), `reeval` (what
+  `reevaluate_cache` does with the remembered names) and `noneOutcome` (a `None` result of `get_result`: the AttributeError
+  check exists and precedes the store) are the model's functions INSTANTIATED with the generated tables; `step`, `ev`, `run`
+  and therefore the theorems below are about this instance.  The theorem states what the instance is; the proofs
+  (`PyrollProofs/LifecycleLemmas.lean`: `hasSet_gen`, `hasCached_gen`, `reeval_gen`, `noneOutcome_gen`) rest on it.
+* `hooks_source_as_modelled` - the statements of `Hook.__get__` (explicit and remembered part) `/ __set__ / __delete__ /
+  get_result`, `HookHost.__init__`, `has_set_or_cached`, `has_value`, `__attrs__`, `root_hook_fallback`,
+  `evaluate_and_set_hooks` and the `root_hooks` list class, in canonical form, are the ones the model was written against (`PyrollModel/HookSource.lean`), with every writer
+  of `__dict__` / `__cache__` anywhere in the file, the names defined in `HookHost` and `_RootHooksList`, and the module-level
+  statement that creates `root_hooks`. -/
+
+/-- **Source tie, consumed part** -/
+theorem hooks_source_consumed :
+    (∀ st i n, hasSet st i n = (lookup n (st.obj i).dict).isSome) ∧
+    (∀ st i n, hasCached st i n = (lookup n (st.obj i).cache).isSome) ∧
+    (∀ fuel i st, reeval fuel i st = reevalLoop fuel i st (keys (st.obj i).cache)) ∧
+    (∀ i n s, noneOutcome i n s = (s, .attrErr)) :=
+  ⟨hasSet_gen, hasCached_gen, reeval_gen, noneOutcome_gen⟩
+
+/-- the model really follows the tables: a `has_set` that looked into `__cache__` would answer from the cache -/
+example : hasIn { cls := 0, dict := [], cache := [(3, none)], fb := none } 3 "__cache__" = true ∧
+    hasIn { cls := 0, dict := [], cache := [(3, none)], fb := none } 3 "__dict__" = false ∧
+    checkIdx ("is None", "AttributeError") [("except RecursionError", "AttributeError"), ("not _all_finite", "ValueError")]
+      = none := by decide
+
+/-- **Source tie, pinned part**: the mirrored statements (of `Hook.__get__` the explicit-value and the remembered-value
+    part; its computing part, `has_set`, `has_cached` and `reevaluate_cache` are covered by the consumed facts, their
+    recognisers accept nothing else); the explicit value and the remembered value are looked up by name in `__dict__` then
+    `__cache__` and count when they are `is not None` (so `0` and `False` count); a computed value is stored in `__cache__`;
+    a result of an implementation is final when it `is not None`.  The conversions RecursionError → AttributeError and
+    non-finite → ValueError lie outside this model's domain (values are integers and booleans, exhausted fuel is
+    `fuelOut`) and are C07's. -/
+theorem hooks_source_as_modelled :
+    Gen.C02.Hooks.hook_getExplicit = HookSource.hook_getExplicit ∧
+    Gen.C02.Hooks.hook_getCached = HookSource.hook_getCached ∧
+    Gen.C02.Hooks.hook_set = HookSource.hook_set ∧
+    Gen.C02.Hooks.hook_delete = HookSource.hook_delete ∧
+    Gen.C02.Hooks.hook_getResult = HookSource.hook_getResult ∧
+    Gen.C02.Hooks.hookHost_init = HookSource.hookHost_init ∧
+    Gen.C02.Hooks.hookHost_hasSetOrCached = HookSource.hookHost_hasSetOrCached ∧
+    Gen.C02.Hooks.hookHost_hasValue = HookSource.hookHost_hasValue ∧
+    Gen.C02.Hooks.hookHost_attrs = HookSource.hookHost_attrs ∧
+    Gen.C02.Hooks.hookHost_rootHookFallback = HookSource.hookHost_rootHookFallback ∧
+    Gen.C02.Hooks.hookHost_evaluateAndSetHooks = HookSource.hookHost_evaluateAndSetHooks ∧
+    Gen.C02.Hooks.rootHooksList_add = HookSource.rootHooksList_add ∧
+    Gen.C02.Hooks.rootHooksList_insertBefore = HookSource.rootHooksList_insertBefore ∧
+    Gen.C02.Hooks.rootHooksList_insertAfter = HookSource.rootHooksList_insertAfter ∧
+    Gen.C02.Hooks.rootHooksList_removeLast = HookSource.rootHooksList_removeLast ∧
+    Gen.C02.Hooks.stateWriters = HookSource.writersOf ["__dict__", "__cache__"] ∧
+    Gen.C02.Hooks.classMembers =
+      HookSource.membersOf ["HookHost(ReprMixin, LogMixin, metaclass=_HookHostMeta)", "_RootHooksList(list)"] ∧
+    Gen.C02.Hooks.moduleLevel = HookSource.moduleLevel ∧
+    Gen.C02.Hooks.getLookups = [("__dict__", "is not None"), ("__cache__", "is not None")] ∧
+    Gen.C02.Hooks.getStore = "__cache__" ∧
+    Gen.C02.Hooks.getResultTest = "is not None" := by
+  refine ⟨?_, ?_, ?_, ?_, ?_, ?_, ?_, ?_, ?_, ?_, ?_, ?_, ?_, ?_, ?_, ?_, ?_, ?_, ?_, ?_, ?_⟩ <;> first | rfl | decide
+
 
 /-- the state an operation starts from: `st` with the invocation log emptied -/
 abbrev State.fresh (st : State) : State := { st with trace := [] }
@@ -110,7 +178,7 @@ theorem read_nothing_available (fuel : Nat) (st s1 : State) (i : Inst) (n : Name
 /-- A finished read does not depend on the amount of fuel (the model's stand-in for the recursion limit). -/
 theorem read_fuel_independent (f g : Nat) (hfg : f ≤ g) (st : State) (i : Inst) (n : Name)
     (h : (step f st (.read i n)).2 ≠ .res .fuelOut) : step g st (.read i n) = step f st (.read i n) := by
-  simp only [step] at h ⊢
+  simp only [step, reeval_gen] at h ⊢
   rw [ev_fuel_mono hfg _ _ (fun e => h (by rw [e]))]
 
 /-! ## 4. Assigning and deleting touch only the explicit value -/
@@ -123,7 +191,7 @@ theorem assign_keeps_cache (fuel : Nat) (st : State) (i : Inst) (n : Name) (x : 
     (∀ j m, (j ≠ i ∨ m ≠ n) → lookup m ((step fuel st (.assign i n x)).1.obj j).dict = lookup m (st.obj j).dict) := by
   refine ⟨assign_lookup_self _ _ _ _, fun j => assign_cache _ _ _ _ _, ?_⟩
   intro j m h
-  simp only [step]
+  simp only [step, reeval_gen]
   by_cases hj : j = i
   · subst hj
     have hm : m ≠ n := by rcases h with h | h; exact absurd rfl h; exact h
@@ -139,12 +207,12 @@ theorem delete_keeps_cache (fuel : Nat) (st : State) (i : Inst) (n : Name) :
   refine ⟨?_, ?_, ?_⟩
   · simp only [step, setObj_self]; exact lookup_del_self _ _
   · intro j
-    simp only [step]
+    simp only [step, reeval_gen]
     by_cases hj : j = i
     · subst hj; rw [setObj_self]
     · rw [setObj_other _ _ _ _ hj]
   · intro j m h
-    simp only [step]
+    simp only [step, reeval_gen]
     by_cases hj : j = i
     · subst hj
       have hm : m ≠ n := by rcases h with h | h; exact absurd rfl h; exact h
@@ -171,12 +239,12 @@ section 8.) -/
 theorem compute_keeps_dict (fuel : Nat) (st : State) (op : Op) (h : op.computes = true) (j : Inst) :
     ((step fuel st op).1.obj j).dict = (st.obj j).dict := by
   cases op with
-  | read i n => simp only [step]; rw [(ev_pres _ _ _).dict]
+  | read i n => simp only [step, reeval_gen]; rw [(ev_pres _ _ _).dict]
   | hasValue i n =>
-    simp only [step]
+    simp only [step, reeval_gen]
     have h1 := (ev_pres fuel st.fresh (.get i n)).dict j
     split <;> (next h' => rw [h'] at h1; simp only; rw [h1])
-  | reevaluate i => simp only [step]; rw [(reevalLoop_pres _ _ _ _).dict]
+  | reevaluate i => simp only [step, reeval_gen]; rw [(reevalLoop_pres _ _ _ _).dict]
   | _ => simp [Op.computes] at h
 
 /-- A read or `has_value` test never forgets or alters a remembered value either, on any instance; it only adds
@@ -186,7 +254,7 @@ theorem read_keeps_remembered (fuel : Nat) (st : State) (i : Inst) (n : Name) :
       lookup m ((step fuel st (.read i n)).1.obj j).cache = some (some v)) ∧
     (∀ j, keys (st.obj j).cache <+: keys ((step fuel st (.read i n)).1.obj j).cache) ∧
     (∀ j, j ≠ i → (step fuel st (.read i n)).1.obj j = st.obj j) := by
-  simp only [step]
+  simp only [step, reeval_gen]
   exact ⟨(ev_pres fuel st.fresh (.get i n)).cacheMono, (ev_pres fuel st.fresh (.get i n)).keysPrefix,
     fun j hj => ev_frame _ _ (.get i n) j hj⟩
 
@@ -199,7 +267,7 @@ theorem reevaluate_keeps_names (fuel : Nat) (st : State) (i : Inst) :
     keys (st.obj i).cache <+: keys ((step fuel st (.reevaluate i)).1.obj i).cache ∧
     (∀ j, j ≠ i → (step fuel st (.reevaluate i)).1.obj j = st.obj j) ∧
     (step fuel st (.reevaluate i)).1.regs = st.regs := by
-  simp only [step]
+  simp only [step, reeval_gen]
   have h := reevalLoop_pres fuel i (keys (st.obj i).cache) st.fresh
   exact ⟨h.keysPrefix i, h.other, h.regs⟩
 
@@ -237,7 +305,7 @@ theorem reevaluate_exactly_cached_names (fuel : Nat) (st : State) (i : Inst)
       (∀ n, n ∉ keys (st.obj i).cache → lookup n (fin.obj i).cache = none) := by
   obtain ⟨fin, h1, h2, h3, h4⟩ := reevalLoop_leaf fuel i (keys (st.obj i).cache) st.fresh hleaf hfuel (fun _ h => h)
   refine ⟨fin, ?_, h2, h3, ?_⟩
-  · simp only [step]
+  · simp only [step, reeval_gen]
     show ((reevalLoop fuel i st.fresh (keys (st.obj i).cache)).1, Out.res (reevalLoop fuel i st.fresh _).2) = _
     rw [h1]
   · intro n hn
@@ -251,21 +319,21 @@ theorem reevaluate_exactly_cached_names (fuel : Nat) (st : State) (i : Inst)
 /-- `has_set` is true exactly when the name is a key of `__dict__` — an explicit `None` or falsy value counts. -/
 theorem has_set_answers (fuel : Nat) (st : State) (i : Inst) (n : Name) :
     step fuel st (.hasSet i n) = (st.fresh, .flag (decide (n ∈ keys (st.obj i).dict))) := by
-  simp only [step, hasSet]
+  simp only [step, hasSet_gen]
   congr 2
   rw [Bool.eq_iff_iff]; simp [lookup_isSome_iff]
 
 /-- `has_cached` is true exactly when the name is a key of `__cache__` (a remembered `None` counts). -/
 theorem has_cached_answers (fuel : Nat) (st : State) (i : Inst) (n : Name) :
     step fuel st (.hasCached i n) = (st.fresh, .flag (decide (n ∈ keys (st.obj i).cache))) := by
-  simp only [step, hasCached]
+  simp only [step, hasCached_gen]
   congr 2
   rw [Bool.eq_iff_iff]; simp [lookup_isSome_iff]
 
 theorem has_set_or_cached_answers (fuel : Nat) (st : State) (i : Inst) (n : Name) :
     step fuel st (.hasSetOrCached i n) =
       (st.fresh, .flag (decide (n ∈ keys (st.obj i).dict) || decide (n ∈ keys (st.obj i).cache))) := by
-  simp only [step, hasSet, hasCached]
+  simp only [step, hasSet_gen, hasCached_gen]
   congr 3 <;> (rw [Bool.eq_iff_iff]; simp [lookup_isSome_iff])
 
 /-- `has_value` answers whether a read would succeed: it performs the read (same state change, same invocations,
@@ -279,7 +347,7 @@ theorem has_value_answers (fuel : Nat) (st : State) (i : Inst) (n : Name) :
        | .res .none => .flag true
        | .res .attrErr => .flag false
        | o => o) := by
-  simp only [step]
+  simp only [step, reeval_gen]
   generalize ev fuel st.fresh (.get i n) = x
   obtain ⟨s, r⟩ := x
   cases r <;> exact ⟨rfl, rfl⟩
@@ -290,10 +358,10 @@ theorem has_set_after_assign_delete (fuel : Nat) (st : State) (i : Inst) (n : Na
     (step fuel (step fuel st (.delete i n)).1 (.hasSet i n)).2 = .flag false := by
   constructor
   · have := (assign_keeps_cache fuel st i n x).1
-    simp only [step, hasSet] at this ⊢
+    simp only [step, hasSet_gen] at this ⊢
     rw [this]; rfl
   · have := (delete_keeps_cache fuel st i n).1
-    simp only [step, hasSet] at this ⊢
+    simp only [step, hasSet_gen] at this ⊢
     rw [this]; rfl
 
 /-! ## 8. Root hooks become explicit values -/
@@ -419,7 +487,7 @@ theorem root_survives_handover (fuel g : Nat) (st : State) (i : Inst) (c : Cls) 
         ((step fuel st (.handOver i c)).1.fresh, .res (.val v))) := by
   have hd : ((step fuel st (.handOver i c)).1.obj st.n).dict = (st.obj i).dict := by simp [step, State.setObj]
   refine ⟨hd, by simp [step, State.setObj], ?_, ?_⟩
-  · intro j hj; simp only [step]; exact setObj_other _ _ _ _ hj
+  · intro j hj; simp only [step, reeval_gen]; exact setObj_other _ _ _ _ hj
   · intro n v h
     exact read_explicit g _ st.n n v (by rw [hd]; exact h)
 
